@@ -16,6 +16,8 @@ MODULES = ['PyDBMLProofs.Props.C02Sticky', 'PyDBMLProofs.Props.C02Table', 'PyDBM
 def mk_case(seed, varied=True, max_tables=4):
     rng = random.Random(seed)
     spec = GD.gen_spec(rng, wild=False, max_tables=max_tables)
+    if rng.random() < 0.15:
+        GD.add_namesake_case(rng, spec)     # a public table and a namesake in another schema, referred to from there
     spec = SP.normalise_for_spelling(spec, RT.ref_norm)
     if not SP.spellable(spec):
         return None
